@@ -1277,6 +1277,11 @@ class Desugar(ast.NodeTransformer):
 
     def _body(self, body: List[ast.stmt], local_tables=None) -> List[ast.stmt]:
         import copy
+        # statements after a raise / return / break / continue in the same block are never reached (left behind by rewrites that move a raising branch into a loop)
+        for k_, s_ in enumerate(body):
+            if isinstance(s_, (ast.Raise, ast.Return, ast.Break, ast.Continue)) and k_ + 1 < len(body):
+                body = list(body[:k_ + 1])
+                break
         # D0: flag = any(..)/all(..) ; if [not] flag: ...   ->  the call moves into the test (flag read nowhere else, assigned once)
         body = list(body)
         j = 0
